@@ -304,7 +304,10 @@ def run(ck):
             spell_count[sp["sym"]] = spell_count.get(sp["sym"], 0) + 1
             text = render(ck, sg, cr, sp)
             key = "cif:%s:%s" % (sg.number, "+".join(k for k, v in sorted(sp.items()) if v is True) + ":" + sp["sym"])
-            repl = {"kind": "input", "setting": sg.number, "spelling": sp, "cif": text}
+            exp_sp = expected(sg, cr, sp["adptype"])
+            repl = {"kind": "input", "setting": sg.number, "spelling": sp, "cif": text,
+                    "expected": [{"label": e["label"], "element": e["element"], "xyz": [str(v) for v in e["xyz"]], "occ": str(e["occ"]), "kind": e["kind"],
+                                  "U": ([[str(v) for v in r] for r in e["U"]] if e["kind"] == "aniso" else str(e["U"]))} for e in exp_sp]}
             p = getParser("cif")
             try:
                 stru = p.parse(text)
@@ -314,7 +317,6 @@ def run(ck):
             if stru is None:
                 ck.fail(key, "CIF of %s #%s in spelling %r gives no structure" % (sg.short_name, sg.number, sp), repl)
                 continue
-            exp_sp = expected(sg, cr, sp["adptype"])
             prob = compare(stru, exp_sp)
             if prob is None and not sp.get("shuffle_ops"):
                 sgp = p.spacegroup
@@ -326,12 +328,12 @@ def run(ck):
                 ck.fail(key, "CIF of %s #%s (%s): %s" % (sg.short_name, sg.number, sp["sym"], prob), dict(repl, detail=prob))
                 continue
             if first is None:
-                first = (stru, sp)
+                first = (stru, sp, text)
             else:
                 d = same_structure(first[0], stru)
                 if d:
                     ck.fail("spelling:%s" % sg.number, "two spellings of the same crystal (%s #%s) give different structures: %s" % (sg.short_name, sg.number, d),
-                            dict(repl, other_spelling=first[1], detail=d))
+                            dict(repl, other_spelling=first[1], other_cif=first[2], detail=d))
         if first is not None and sg.number in translated:
             ln, D = model_line(sg, cr)
             lines.append(ln)
@@ -395,10 +397,20 @@ def replay(path):
     p = getParser("cif")
     try:
         s = p.parse(r["cif"])
-        print("parsed %d atoms; space group %r" % (len(s), getattr(p.spacegroup, "short_name", None)))
-        for a in s[:12]:
-            print(a.label, a.element, a.xyz.tolist(), a.occupancy)
     except Exception as e:
         print("parse raised %r" % (e,))
-    print("expected:", r.get("detail"))
-    return 1
+        return 1
+    if s is None:
+        print("no structure")
+        return 1
+    print("parsed %d atoms; space group %r" % (len(s), getattr(p.spacegroup, "short_name", None)))
+    exp = []
+    for e in r.get("expected", []):
+        U = [[Fraction(v) for v in row] for row in e["U"]] if e["kind"] == "aniso" else Fraction(e["U"])
+        exp.append({"label": e["label"], "element": e["element"], "xyz": [Fraction(v) for v in e["xyz"]], "occ": Fraction(e["occ"]), "kind": e["kind"], "U": U})
+    prob = compare(s, exp) if exp else None
+    if prob is None and r.get("other_cif"):
+        s2 = getParser("cif").parse(r["other_cif"])
+        prob = same_structure(s2, s)
+    print("problem:", prob)
+    return 1 if prob else 0
